@@ -22,9 +22,9 @@ def classify(req, obs, rule):
 
 PROP = {
     "id": "C05",
-    "lean_targets": ["WmModel.Props.C05Live", "WmModel.Props.C04Exit", "WmModel.Props.C05Reg", "WmModel.Props.C05"],
+    "lean_targets": ["WmModel.Props.C05Prod", "WmModel.Props.C05Live", "WmModel.Props.C04Exit", "WmModel.Props.C05Reg", "WmModel.Props.C05"],
     "audit_module": "Audit.C05",
-    "theorems": ["Wm.GcReg.nonblocking_no_deadlock", "Wm.GcReg.blocking_deadlock_needs_nested_publish", "Wm.GcReg.closing_no_deadlock", "Wm.GcReg.d11_has_nested_publish", "Wm.GcSub.acked_exit_means_delivered_and_acked", "Wm.GcSub.unacked_exit_means_closing", "Wm.GcSub.sender_exits_once", "Wm.GcReg.blocking_order", "Wm.GcReg.blocking_publish_waits", "Wm.GcReg.blocking_send_then_wait", "Wm.GcReg.blocking_deadlock_witness", "Wm.GcReg.blocking_without_pending_writer_returns", "Wm.GcReg.writer_unique", 
+    "theorems": ["Wm.GcProd.blocking_publish_returns_only_after_ack", "Wm.GcProd.prod_witness", "Wm.GcProd.prod_sender_done_waits_for_msub", "Wm.GcReg.nonblocking_no_deadlock", "Wm.GcReg.blocking_deadlock_needs_nested_publish", "Wm.GcReg.closing_no_deadlock", "Wm.GcReg.d11_has_nested_publish", "Wm.GcSub.acked_exit_means_delivered_and_acked", "Wm.GcSub.unacked_exit_means_closing", "Wm.GcSub.sender_exits_once", "Wm.GcReg.blocking_order", "Wm.GcReg.blocking_publish_waits", "Wm.GcReg.blocking_send_then_wait", "Wm.GcReg.blocking_deadlock_witness", "Wm.GcReg.blocking_without_pending_writer_returns", "Wm.GcReg.writer_unique", 
         "Wm.GcSub.one_unsettled_inv", "Wm.GcSub.unsettled_is_owned", "Wm.GcSub.no_send_while_unsettled",
         "Wm.GcSub.never_panics", "Wm.GcSub.close_flags_consistent", "Wm.GcSub.holder_can_leave_when_closing",
     ],
@@ -63,7 +63,7 @@ PROP = {
                   "(blocking_order); deadlock freedom: non-blocking mode never deadlocks, a blocking-mode deadlock needs a consumer that publishes before it acks "
                   "(blocking_deadlock_needs_nested_publish; D11 is exactly that state), and after Close has signalled nothing is stuck. "
                   "The models are tied to the code by structural facts and by trace inclusion of recorded executions; monitors re-check the clauses on those executions.",
-    "level_note": "Partial: M_sub and M_reg are composed on paper (a sender of M_reg is a `spawn` of M_sub; `senderDone` is that sender's exit); "
+    "level_note": "The composition is machine-checked too: M_prod (lean/WmModel/GcProd.lean) is M_reg in parallel with the M_sub instance of one arbitrary subscription, every product step projects to an M_reg step and a finite M_sub run (Lemmas/GcProdProj.lean), and blocking_publish_returns_only_after_ack states the clause end to end (the sender the dispatcher waited for ended with a delivered, received, acked copy - or the subscription was closing/closed). Partial only in that "
                   "'it does return once they have, also when subscribers publish from their receive loop' is false of the code in one configuration - the recorded "
                   "finding D11 (theorem blocking_deadlock_witness) - and proved for all others in the model.",
     "technique": "Lean 4 invariant proof over an LTS model of the subscription + trace-inclusion conformance and monitors on hook-instrumented executions",
